@@ -32,7 +32,7 @@ func init() {
 				Rule: "exhaustive part (seed-independent): a 6-entry unit-size cache over 7 keys is filled, then EVERY sequence of 4 (5 thorough) operations from {Get, Remove, Put} x 7 keys is applied, then six fresh keys evict everything and the eviction order is compared; random part: case = (limit 1..40, unit sizes or a size function with sizes 0..limit+2, 2..40 keys, history of 80-600 Put/Get/Has/Remove/Clear with Remove-then-Get/Remove/Put bursts; a third of the size-function histories with every size and the limit multiplied by 2^26..2^56 (totals beyond 2^31, 2^32, 2^53); one history in five runs on a cache configured WITHOUT the optional eviction callback, where evictions are observed through the results only). Long-lived caches: one instance carries 150 000 (600 000 thorough) calls under sparse observation (per-call clocks and counters get the chance to drift or wrap). After EVERY call: the result, Len, Size (== sum of sizes, <= limit), Has for every key, the exact eviction-callback multiset of that call with evictions in exact LRU order (order of Clear's callbacks and the position of the replaced entry's callback unconstrained), and the accounting/LRU-index hook. " +
 					"Every history is executed as is and with the F1 counterfactual switch; a real-run violation is attributed to F1 iff it vanishes in the counterfactual run, every parent index seen was i/2 or (i-1)/2, and the cache had held >= 5 entries; a violation in a counterfactual run is a VIOLATION. " +
 					"distinct = hash(config, ops); non-trivial = the history evicted at least once and performed an access or removal after a Remove",
-				Required:     []string{"exhaustive_small_histories", "histories", "histories_ge6_entries", "evictions", "remove_then_access", "zero_size_puts", "too_large_puts", "replacing_puts", "clears", "hook_checks", "sparse_observation_runs", "runs_without_evict_callback", "long_lived_cache_runs", "runs_with_sizes_beyond_2_to_the_31"},
+				Required:     []string{"exhaustive_small_histories", "histories", "histories_ge6_entries", "evictions", "remove_then_access", "zero_size_puts", "too_large_puts", "replacing_puts", "clears", "hook_checks", "sparse_observation_runs", "runs_without_evict_callback", "long_lived_cache_runs", "runs_with_sizes_beyond_2_to_the_31", "clock_jumps"},
 				Assumptions:  []string{"reference model: recency list; Put and successful Get count as uses, Has does not", "known finding F1 is excused only through the counterfactual switch in heapq/verif_on.go and only when >= 5 entries were held"},
 				CoverPkgs:    []string{"github.com/creachadair/mds/cache", "github.com/creachadair/mds/heapq"},
 				CoverAnchors: []string{"cache/cache.go", "cache/lru.go", "heapq/heapq.go:pop", "heapq/heapq.go:Remove", "heapq/heapq.go:Pop", "heapq/heapq.go:Add", "heapq/heapq.go:pushUp", "heapq/heapq.go:pushDown", "heapq/heapq.go:swap"},
@@ -85,6 +85,10 @@ type c08cfg struct {
 	// MaxScale: every size is multiplied by MaxInt64/Limit, so that the limit is
 	// (just below) MaxInt64 and size + new size passes MaxInt64
 	MaxScale bool `json:"limit_near_max_int64,omitempty"`
+	// ClockJumps: now and then the LRU store's logical access clock is moved
+	// forward (hook cache.VerifAdvanceClock) by 2^31-50, 2^31, 2^32 and 2^61 in
+	// turn, so that access times on both sides of 2^31, 2^32, 2^33 and 2^61 meet
+	ClockJumps bool `json:"clock_jumps,omitempty"`
 }
 
 type c08stats struct {
@@ -113,6 +117,8 @@ func c08run(c *fw.Ctx, cfg c08cfg, ops []cop, fixParent bool) (div *heapDiv, st 
 
 	var calls []lruEntry
 	conf := cache.LRU[int, CVal]()
+	lruStore := cache.VerifStoreOf(conf)
+	jumps := []int64{1<<31 - 50, 1 << 31, 1 << 32, 1 << 61}
 	if !cfg.NoCallback {
 		conf = conf.OnEvict(func(k int, v CVal) { calls = append(calls, lruEntry{k, v}) })
 	} else {
@@ -136,6 +142,11 @@ func c08run(c *fw.Ctx, cfg c08cfg, ops []cop, fixParent bool) (div *heapDiv, st 
 	lastWasRemove := false
 	for step = 0; step < len(ops); step++ {
 		o := ops[step]
+		if cfg.ClockJumps && len(jumps) > 0 && step%41 == 17 {
+			cache.VerifAdvanceClock(ch, lruStore, jumps[0])
+			jumps = jumps[1:]
+			c.Add("clock_jumps", 1)
+		}
 		refBefore = ref.String()
 		calls = calls[:0]
 		c.Step()
@@ -551,7 +562,7 @@ func runC08(c *fw.Ctx) {
 				continue
 			}
 			r := c.Rng()
-			cfg := c08cfg{Limit: int64(1 + r.IntN(40)), Unit: r.IntN(4) == 0, Keys: 2 + r.IntN(39), NoCallback: k%5 == 3}
+			cfg := c08cfg{Limit: int64(1 + r.IntN(40)), Unit: r.IntN(4) == 0, Keys: 2 + r.IntN(39), NoCallback: k%5 == 3, ClockJumps: k%3 != 0}
 			if !cfg.Unit && k%2 == 1 {
 				cfg.Shift = []uint{26, 27, 28, 29, 31, 32, 33, 48, 56}[r.IntN(9)]
 				c.Add("runs_with_sizes_beyond_2_to_the_31", 1)
@@ -588,6 +599,7 @@ func runC08(c *fw.Ctx) {
 		r := c.Rng()
 		cfg := c08cfg{Limit: int64(1 + r.IntN(40)), Unit: r.IntN(2) == 0, Keys: 2 + r.IntN(39)}
 		cfg.NoCallback = k%5 == 3
+		cfg.ClockJumps = k%2 == 1
 		if !cfg.Unit && k%3 == 1 {
 			cfg.Shift = []uint{26, 27, 28, 29, 31, 32, 33, 48, 56}[r.IntN(9)]
 			cfg.MaxScale = r.IntN(4) == 0
